@@ -7,6 +7,7 @@
 #include <cinttypes>
 #include <climits>
 #include <set>
+#include <sys/wait.h>
 
 extern "C"
 {
@@ -309,7 +310,37 @@ static int pm_cmp(const void *a, const void *b) { return (int)*(const uint8_t *)
 static int pm_kcmp(const void *k, const void *e) { return *(const int *)k - (int)*(const uint8_t *)e; }
 struct premain_t
 {
+    // The calls run in a forked child: a crash there (sanitizer abort) must not take the whole
+    // harness down before main() - it becomes the result of the op `premain`.
     premain_t()
+    {
+        int fd[2];
+        if (pipe(fd)) { g_premain_bad = "pipe() failed"; return; }
+        fflush(0);
+        pid_t pid = fork();
+        if (pid == 0)
+        {
+            close(fd[0]);
+            alarm(20);
+            calls();
+            (void)!write(fd[1], g_premain, strlen(g_premain));
+            _exit(g_premain_bad ? 3 : 0);
+        }
+        close(fd[1]);
+        size_t got = 0;
+        ssize_t k;
+        while (got + 1 < sizeof g_premain && (k = read(fd[0], g_premain + got, sizeof g_premain - 1 - got)) > 0) got += (size_t)k;
+        g_premain[got] = 0;
+        close(fd[0]);
+        int status = 0;
+        waitpid(pid, &status, 0);
+        if (!WIFEXITED(status) || WEXITSTATUS(status) != 0)
+        {
+            if (!got) snprintf(g_premain, sizeof g_premain, "crashed-before-main");
+            g_premain_bad = "the calls made before main() (strtol, strtoull, rand, qsort of 9 elements of 3 bytes, bsearch) crashed or gave a wrong result";
+        }
+    }
+    static void calls()
     {
         std::string r = "seed0 " + std::to_string(igv_rand_state());
         r += " rand";
@@ -1310,7 +1341,8 @@ static void gen_round3(rng &r, bool th)
 {
     puts("consts");
     puts("ctype");
-    puts("premain");
+    // (the descriptive word makes the line longer than the small direct ops: bin/check replays the shortest failing op first)
+    puts("premain strtol,strtoull,rand,qsort(9x3),bsearch-called-from-a-constructor-with-init_priority(101)-before-main");
     // ---- strto*: state kept between calls?  Consecutive calls of ONE function with the sign and the
     // magnitude alternating around the limits (a cache keyed by the base alone would mix the limits of
     // the two signs), then the same text through all eight functions, base by base.
@@ -1401,11 +1433,13 @@ static void gen_round3(rng &r, bool th)
             for (unsigned shape = 0; shape < (n < 60000 || th ? 5u : 2u); shape++)
                 printf("qsg %u %d %u %zu %u %u\n", n > 60000 ? (unsigned)r.pick(std::vector<unsigned>{1, 2, 5}) : esz(r), kinds[rot++ % 7], (unsigned)r.next(), n, shape, (unsigned)r.pick(std::vector<unsigned>{3, 256, 256}));
         printf("qsg 4 0 %u 300000 0 256\n", (unsigned)r.next());
-        printf("qsg 1 %d %u 307200 %u 256\n", kinds[r.below(6)], (unsigned)r.next(), (unsigned)r.below(5));
+        // (random keys only at this length: with 256 distinct keys a structured shape costs a
+        // deterministic-pivot quicksort 256 x nmemb comparisons - legitimate, but beyond the per-op time limit)
+        printf("qsg 1 %d %u 307200 0 256\n", kinds[r.below(6)], (unsigned)r.next());
         if (th)
         {
             printf("qsg 2 1 %u 500000 0 256\n", (unsigned)r.next());
-            printf("qsg 3 5 %u 300001 4 200\n", (unsigned)r.next());
+            printf("qsg 3 5 %u 300001 0 200\n", (unsigned)r.next());
         }
     }
     // ---- bsearch / bounds with the new comparators, and with the key object inside the array
